@@ -254,10 +254,23 @@ def gen_history(rng, nops, files=(1,), backend="BE", big=False, wide=False, path
                     m.nodes[u]["parent"] = np_
         elif r < 0.955:
             u = rng.choice(nonroot); p = m.nodes[u]["parent"]
+            if rng.random() < 0.5:
+                # prefer a childless node that has siblings behind it: the entries behind it move up in the parent's table
+                c2 = [x for x in nonroot if not m.kids(x) and m.kids(m.nodes[x]["parent"])[-1] != x]
+                if c2:
+                    u = rng.choice(c2); p = m.nodes[u]["parent"]
+            listed = rng.random() < 0.7
+            if listed:                               # the parent is listed before ... (whatever is cached is cached now)
+                lines.append("names %d %d 1 %d" % (f, p, len(m.kids(p)) + 1))
             lines.append("delete %d %d %d" % (f, p, u))
             if not ro:
                 for k in m.subtree(u):
                     del m.nodes[k]
+            if listed:                               # ... and again in the same session, by count, names and lookups
+                lines.append("nchild %d %d" % (f, p))
+                lines.append("names %d %d 1 %d" % (f, p, len(m.kids(p)) + 1))
+                for k in m.kids(p)[-4:]:
+                    lines.append("lookup %d %d %s" % (f, p, hx(m.nodes[k]["name"])))
         elif r < 0.975:
             md = rng.choice(["m", "m", "r"])
             lines.append("reopen %d %s" % (f, md)); mode[f] = md
